@@ -59,7 +59,8 @@ var executeLifecycleStage = step.LifecycleStage{
 	},
 	NextStages: map[string]dgraph.DependencyType{
 		string(StageIDOutputs): dgraph.AndDependency,
-		string(StageIDFailed):  dgraph.CompletionAndDependency,
+		// The loop only fails after it has executed, so when it can never execute it can never fail either.
+		string(StageIDFailed): dgraph.AndDependency,
 	},
 	Fatal: false,
 }
